@@ -48,7 +48,23 @@ func ctlHelper() int {
 	kDir = os.Getenv("VERIF_CTL_DIR")
 	scenario := os.Getenv("VERIF_CTL_SCENARIO")
 	treeScript := []string{"ignore", "fork", "3", "ignore", "fork", "2", "ignore", "pause", "pause", "daemon", "2", "ignore", "pause", "sleep", "100"}
+	if os.Getenv("VERIF_CTL_SPAWN") == "1" {
+		// one more descendant, made the way posix_spawn / system() / os/exec make theirs: vfork and exec at once
+		treeScript = append([]string{"spawn", "2", "ignore", "pause"}, treeScript...)
+	}
 	switch scenario {
+	case "tracer_userns_killed_at_fork":
+		// a tracer driving forkexec directly with a new user namespace for the tracee; the freshly cloned
+		// child is held at the child gate while this process is killed
+		forkexec.VGateFd = 5
+		w, _, _ := kPipe()
+		r := &forkexec.Runner{Args: append([]string{probePath}, append(append([]string{}, treeScript...), "pause")...), Env: []string{"A=B"},
+			Files: []uintptr{nullFile().Fd(), w.Fd(), nullFile().Fd()}, Ptrace: true, Seccomp: kFilterAllowAllBut([]string{"getppid"}, nil).SockFprog(),
+			CloneFlags: unix.CLONE_NEWUSER}
+		tr := ptracer.Tracer{Handler: ctlTraceHandler{}, Runner: r, Limit: bigLimit}
+		ctlAnnounce("pt start")
+		tr.Trace(context.Background())
+		ctlAnnounce("pt done")
 	case "tracer_cred":
 		// a tracer driving forkexec directly, with an unprivileged identity for the tracee
 		n := 0
@@ -179,16 +195,18 @@ func descendants(pid int) []int {
 func c16Run(c *vcore.Ctx) *vcore.Violation {
 	const prop = "C16"
 	src := c.Src
-	scenario := src.Pick("scenario", "container", "container_syncafter", "tracer", "tracer", "tracer_cred", "container_initcmd", "container_stalled_stderr", "tracer_killed_at_fork")
+	scenario := src.Pick("scenario", "container", "container_syncafter", "tracer", "tracer", "tracer_cred", "container_initcmd", "container_stalled_stderr", "tracer_killed_at_fork", "tracer_userns_killed_at_fork")
 	long := src.Bool(1, 2, "program_runs_forever")
-	if scenario == "container_initcmd" || scenario == "container_stalled_stderr" || scenario == "tracer_cred" || scenario == "tracer_killed_at_fork" {
+	gate := scenario == "tracer_killed_at_fork" || scenario == "tracer_userns_killed_at_fork"
+	if scenario == "container_initcmd" || scenario == "container_stalled_stderr" || scenario == "tracer_cred" || gate {
 		long = true
 	}
+	spawn := src.Bool(1, 2, "tree_with_spawned_descendant")
 	killAt := src.Int(40, "killpoint")
 	if src.Bool(1, 2, "early_kill") {
 		killAt = src.Int(5, "early_killpoint") // the first few points of a scenario are where the mechanisms hand over
 	}
-	if scenario == "tracer_killed_at_fork" {
+	if gate {
 		killAt = 1 << 20 // never at an announcement: while the helper is blocked with its child held at the gate
 	}
 	c.Logf("scenario=%s program-runs-forever=%v kill at announcement #%d", scenario, long, killAt)
@@ -218,14 +236,17 @@ func c16Run(c *vcore.Ctx) *vcore.Violation {
 	rr, rw, _ := os.Pipe() // releases simulator -> helper
 	cmd.ExtraFiles = []*os.File{aw, rr}
 	var gateW *os.File
-	if scenario == "tracer_killed_at_fork" {
+	if gate {
 		gr, gw, _ := os.Pipe()
 		cmd.ExtraFiles = append(cmd.ExtraFiles, gr) // descriptor 5 of the helper and of its forked child
 		gateW = gw
 		defer gr.Close()
 		defer gw.Close()
 	}
-	cmd.Env = append(os.Environ(), "VERIF_HELPER=ctl", "VERIF_CTL_SCENARIO="+scenario, "VERIF_CTL_DIR="+c.Dir, fmt.Sprintf("VERIF_CTL_LONG=%d", map[bool]int{true: 1, false: 0}[long]))
+	if spawn {
+		c.Event("spawned_descendant")
+	}
+	cmd.Env = append(os.Environ(), fmt.Sprintf("VERIF_CTL_SPAWN=%d", map[bool]int{true: 1, false: 0}[spawn]), "VERIF_HELPER=ctl", "VERIF_CTL_SCENARIO="+scenario, "VERIF_CTL_DIR="+c.Dir, fmt.Sprintf("VERIF_CTL_LONG=%d", map[bool]int{true: 1, false: 0}[long]))
 	cmd.Stderr = nil
 	if err := cmd.Start(); err != nil {
 		vcore.Harnessf("start helper: %v", err)
